@@ -1,3 +1,323 @@
-(* placeholder: theorems follow *)
-From CC Require Import Model.Network.
-Example C14_model_runs : True. Proof. exact I. Qed.
+(* C14 — the numbers written on a schematic are the circuit's quantities, to the displayed precision, in the element's
+   reference direction, negated exactly when the annotation is requested in reverse; the real, complex (Cartesian /
+   polar) and sinusoidal renderings agree.
+   Statements only; every proof is [exact <lemma>].  Models: Model/Annotation.v (DiagramSolution.py adapters, Display.py
+   print_real / print_complex / print_sinosoidal / print_active_power, the `solutions` table and the parameter filter of
+   SimpleSimulation/schematic.py — hand-written mirrors) on top of Model/Format.v (Utils.py, C18).
+   Readers of the texts: Theory/FormatText.v [parse] (one number), Theory/AnnotationCart.v [parse_cartesian].
+   Values are the exact rationals of the binary64 numbers handed to the adapter by its solution object (that these are
+   the quantities of the translated circuit is C02 / C13); transcendental functions are oracles of the value formatted.
+     sgnQ r x / sgnC r z  = the value after `sign * value`      eff_reverse q r = r, except false for potentials
+     carry_region_Q, sig_exp, pvalue, Qpow10                     as in Properties/C18.v
+   KNOWN FINDING kept as hypothesis (C18_carry_defect): 1 - 10^-p/2 <= |x| < 1 with p >= 2 is excluded.
+   Range hypotheses: exponent x p <= 3 (above it print_real shows '∞': largest prefix is k), <= 12 for the power text. *)
+From Coq Require Import List Bool ZArith NArith QArith Qabs Qpower Lia String.
+From CC Require Import Theory.Field Theory.Complex Model.Network Model.Format Model.Circuit
+  Theory.FormatThm Theory.FormatText Theory.FormatSig Model.Annotation Theory.AnnotationThm Theory.AnnotationCart.
+Import ListNotations.
+Open Scope Z_scope.
+
+(* ================= reverse: exactly the text of the negated value ================= *)
+Theorem C14_reverse_exact_real : forall (q : quantity) (x : Q) (p : Z), takes_reverse q = true ->
+  real_ann q true x p = real_ann q false (- x)%Q p.
+Proof. exact real_reverse_exact. Qed.
+Theorem C14_reverse_exact_complex : forall (O : polar_oracle) (q : quantity) (z : cval) (p : Z) (polar deg : bool),
+  takes_reverse q = true ->
+  complex_ann O q true z p polar deg = complex_ann O q false ((- fst z)%Q, (- snd z)%Q) p polar deg.
+Proof. exact complex_reverse_exact. Qed.
+Theorem C14_reverse_exact_sinusoidal : forall (O : sin_oracle) (q : quantity) (z : cval) (p : Z) (w : Q) (sn deg hz : bool),
+  takes_reverse q = true ->
+  sin_ann O q true z p w sn deg hz = sin_ann O q false ((- fst z)%Q, (- snd z)%Q) p w sn deg hz.
+Proof. exact sin_reverse_exact. Qed.
+(* all adapters and the three reversible quantities at once; potentials have no reverse *)
+Theorem C14_reverse_exact : forall (PO : polar_oracle) (SO : sin_oracle) (ad : adapter) (q : quantity) (v : reading),
+  (q = QVoltage \/ q = QCurrent \/ q = QPower) ->
+  annotation PO SO ad q true v
+  = annotation PO SO ad q false {| rd_real := (- rd_real v)%Q; rd_cplx := ((- fst (rd_cplx v))%Q, (- snd (rd_cplx v))%Q) |}.
+Proof. exact annotation_reverse_exact_q. Qed.
+Theorem C14_potential_has_no_reverse : forall PO SO ad rev v,
+  annotation PO SO ad QPotential rev v = annotation PO SO ad QPotential false v.
+Proof. exact potential_ignores_reverse. Qed.
+(* forward = the text of the value itself, with the unit of the quantity and the adapter's options *)
+Theorem C14_forward_text : forall PO SO ad q v,
+  annotation PO SO ad q false v =
+  match ad with
+  | AdEmpty => []
+  | AdReal p => match q with QPower => print_active_power (rd_real v) p | _ => print_real (rd_real v) (unit_of q) p end
+  | AdComplex _ p polar deg => print_complex PO (rd_cplx v) (unit_of q) p polar deg
+  | AdSin w p sn deg hz => print_sinusoidal SO (rd_cplx v) (unit_of q) p w sn deg hz
+  end.
+Proof. exact annotation_forward. Qed.
+Print Assumptions C14_reverse_exact.
+
+(* ================= the real adapter reads back to the quantity ================= *)
+(* voltage, current, potential: within half a unit of the p-th significant digit of the quantity, with the sign of the
+   sign-adjusted value *)
+Theorem C14_real_accurate : forall (q : quantity) (reverse : bool) (x : Q) (p : Z),
+  q <> QPower ->
+  ~ (x == 0)%Q -> 1 <= p -> ~ (2 <= p /\ carry_region_Q x p) -> exponent x p <= 3 ->
+  let v := sgnQ (eff_reverse q reverse) x in
+  exists r s, parse true tab_umk (unit_of q) (real_ann q reverse x p) = Some r /\
+    p_inf r = false /\ (p_neg r = true <-> (v < 0)%Q) /\
+    sig_exp x p s /\ (Qabs (pvalue r - v) <= Qpow10 s / 2)%Q.
+Proof. exact real_accurate. Qed.
+Print Assumptions C14_real_accurate.
+
+(* power: magnitude (default prefix table) followed by an arrow; '↓' exactly for a positive value;
+   arrow_sign '↓' = 1, arrow_sign '↑' = -1 *)
+Theorem C14_power_accurate : forall (reverse : bool) (x : Q) (p : Z),
+  ~ (x == 0)%Q -> 1 <= p -> ~ (2 <= p /\ carry_region_Q x p) -> exponent x p <= 12 ->
+  let v := sgnQ reverse x in
+  exists body arrow r s, real_ann QPower reverse x p = body ++ [arrow] /\
+    (arrow = ARROW_DOWN \/ arrow = ARROW_UP) /\ (arrow = ARROW_DOWN <-> (0 < v)%Q) /\
+    parse true tab_default [87%N] body = Some r /\ p_inf r = false /\ p_neg r = false /\
+    sig_exp x p s /\ (Qabs (arrow_sign arrow * pvalue r - v) <= Qpow10 s / 2)%Q.
+Proof. exact power_accurate. Qed.
+Print Assumptions C14_power_accurate.
+
+(* ================= the complex adapter, Cartesian ================= *)
+Theorem C14_complex_parts : forall (O : polar_oracle) (q : quantity) (reverse : bool) (z : cval) (p : Z) (deg : bool),
+  let z' := sgnC (eff_reverse q reverse) z in
+  let un := unit_of q in
+  let TR := sci_text (Qabs (fst z')) p true tab_umk un in
+  let TI := sci_text (Qabs (snd z')) p true tab_umk un in
+  let rsg := if Qneg (fst z') then [45%N] else [] in
+  let isg := if Qneg (snd z') then [45%N] else [43%N] in
+  complex_ann O q reverse z p false deg =
+    if is_zero (Qabs (snd z')) p (-6) then rsg ++ TR
+    else if is_zero (Qabs (fst z')) p (-6) then (if Qneg (snd z') then isg ++ LJ :: TI else LJ :: TI)
+    else rsg ++ TR ++ isg ++ LJ :: TI.
+Proof. exact complex_parts. Qed.
+Print Assumptions C14_complex_parts.
+(* the magnitudes printed do not depend on the direction: reversing changes the sign strings only *)
+Theorem C14_reverse_keeps_magnitudes : forall r z,
+  Qabs (fst (sgnC r z)) = Qabs (fst z) /\ Qabs (snd (sgnC r z)) = Qabs (snd z).
+Proof. exact sgnC_abs. Qed.
+Theorem C14_reverse_flips_sign_strings : forall x, ~ (x == 0)%Q -> Qneg (- x) = negb (Qneg x).
+Proof. exact Qneg_opp. Qed.
+
+(* ================= agreement of the renderings ================= *)
+(* (a) Cartesian: the text parses to (re, im) of the sign-adjusted value, each part within half a unit of its own p-th
+   digit.  part_ok x p = x <> 0, outside the defect region, -6 <= exponent x p <= 3 (both parts are shown). *)
+Theorem C14_agree_cartesian : forall (O : polar_oracle) (q : quantity) (reverse : bool) (z : cval) (p : Z) (deg : bool),
+  1 <= p -> part_ok (fst z) p -> part_ok (snd z) p ->
+  let z' := sgnC (eff_reverse q reverse) z in
+  exists c sr si,
+    parse_cartesian tab_umk (unit_of q) (complex_ann O q reverse z p false deg) = Some c /\
+    sig_exp (fst z) p sr /\ sig_exp (snd z) p si /\
+    (Qabs (fst (cart_value c) - fst z') <= Qpow10 sr / 2)%Q /\
+    (Qabs (snd (cart_value c) - snd z') <= Qpow10 si / 2)%Q /\
+    (exists rr ri, c_re c = Some rr /\ c_im c = Some (Qneg (snd z'), ri) /\ p_inf rr = false /\ p_inf ri = false /\
+       (p_neg rr = true <-> (fst z' < 0)%Q) /\ p_neg ri = false).
+Proof. exact cartesian_reads_back. Qed.
+Print Assumptions C14_agree_cartesian.
+Theorem C14_part_ok_meaning : forall x p,
+  part_ok x p <-> (~ (x == 0)%Q /\ ~ (2 <= p /\ carry_region_Q x p) /\ -6 <= exponent x p <= 3).
+Proof. exact part_ok_iff. Qed.
+(* a purely real phasor (DC-like): no 'j' is written, the text is the real adapter's *)
+Theorem C14_agree_cartesian_real : forall (O : polar_oracle) (q : quantity) (reverse : bool) (z : cval) (p : Z) (deg : bool),
+  1 <= p -> part_ok (fst z) p -> Qnum (snd z) = 0 ->
+  let z' := sgnC (eff_reverse q reverse) z in
+  exists rr sr,
+    parse_cartesian tab_umk (unit_of q) (complex_ann O q reverse z p false deg) = Some {| c_re := Some rr; c_im := None |} /\
+    p_inf rr = false /\ (p_neg rr = true <-> (fst z' < 0)%Q) /\
+    sig_exp (fst z) p sr /\ (Qabs (pvalue rr - fst z') <= Qpow10 sr / 2)%Q.
+Proof. exact cartesian_real_reads_back. Qed.
+Print Assumptions C14_agree_cartesian_real.
+
+(* (b) polar: magnitude text = sci_text of abs(value), then '∠', the angle text (oracle) and '°' in degrees *)
+Theorem C14_agree_polar_text : forall (O : polar_oracle) (q : quantity) (reverse : bool) (z : cval) (p : Z) (deg : bool),
+  let z' := sgnC (eff_reverse q reverse) z in
+  complex_ann O q reverse z p true deg =
+    sci_text (po_abs O z') p true tab_umk (unit_of q)
+    ++ (if po_small O deg z' then [] else 8736%N :: po_text O deg z' ++ (if deg then [176%N] else [])).
+Proof. exact polar_shape. Qed.
+(* with a polar decomposition re = r*c, im = r*s, c^2 + s^2 = 1, that magnitude r is the one of the Cartesian pair *)
+Theorem C14_agree_magnitude : forall (R : fops) (ROK : fops_ok R) (re im r c s : R),
+  re = fmul R r c -> im = fmul R r s -> fadd R (fmul R c c) (fmul R s s) = f1 R ->
+  fmul R r r = fadd R (fmul R re re) (fmul R im im).
+Proof. exact polar_magnitude. Qed.
+Print Assumptions C14_agree_magnitude.
+
+(* (c) sinusoid: the text starts with the sci_text of abs(value) — the same magnitude text as the polar form of the
+   same value —, is that alone when w = 0, and continues '·cos(' / '·sin(' otherwise *)
+Theorem C14_agree_sinusoid_text : forall (O : sin_oracle) (q : quantity) (reverse : bool) (z : cval) (p : Z) (w : Q)
+    (sn deg hz : bool),
+  let z' := sgnC (eff_reverse q reverse) z in
+  exists rest, sin_ann O q reverse z p w sn deg hz = sci_text (so_abs O z') p true tab_umk (unit_of q) ++ rest
+    /\ ((w == 0)%Q -> rest = [])
+    /\ (~ (w == 0)%Q -> exists tail, rest = DOT :: (if sn then t_sin else t_cos) ++ 40%N :: tail).
+Proof. exact sin_shape. Qed.
+(* the sinusoidal adapter holds the PEAK solution; a peak quantity is sqrt2 times the RMS quantity the complex adapter
+   shows, so the amplitude is sqrt2 * |z_rms| (for every a with a^2 = |z_rms|^2, (sqrt2 a)^2 = |z_peak|^2) *)
+Theorem C14_agree_peak_rms : forall (R : fops) (ROK : fops_ok R) (sqrt2 : R)
+  (Rreal : forall x y : R, fadd R (fmul R x x) (fmul R y y) = f0 R -> x = f0 R /\ y = f0 R)
+  (sp sr : csol R) (x : Cx R),
+  cs_peak sp = true -> cs_peak sr = false -> fmul R sqrt2 sqrt2 = fadd R (f1 R) (f1 R) ->
+  let zp := unpeak R sqrt2 sp x in let zr := unpeak R sqrt2 sr x in
+  zp = fmul (Cx R) (sqrt2, f0 R) zr /\
+  cxnorm2 R zp = fmul R (fadd R (f1 R) (f1 R)) (cxnorm2 R zr) /\
+  (forall a, fmul R a a = cxnorm2 R zr -> fmul R (fmul R sqrt2 a) (fmul R sqrt2 a) = cxnorm2 R zp).
+Proof. exact peak_is_sqrt2_rms. Qed.
+Print Assumptions C14_agree_peak_rms.
+(* with any nonzero number in the role of sqrt(2) (as in binary64): the factor is that number *)
+Theorem C14_agree_peak_rms_general : forall (R : fops) (ROK : fops_ok R) (sqrt2 : R) (sp sr : csol R) (x : Cx R),
+  cs_peak sp = true -> cs_peak sr = false -> sqrt2 <> f0 R ->
+  let zp := unpeak R sqrt2 sp x in let zr := unpeak R sqrt2 sr x in
+  zp = fmul (Cx R) (sqrt2, f0 R) zr /\
+  cxnorm2 R zp = fmul R (fmul R sqrt2 sqrt2) (cxnorm2 R zr) /\
+  (forall a, fmul R a a = cxnorm2 R zr -> fmul R (fmul R sqrt2 a) (fmul R sqrt2 a) = cxnorm2 R zp).
+Proof. exact peak_is_sqrt2_rms_gen. Qed.
+Print Assumptions C14_agree_peak_rms_general.
+(* phase reference: arg for the cosine, arg + pi/2 for the sine (fix c7f5f7b; before it: arg - pi/2) *)
+Theorem C14_sine_reference : forall (O : sin_oracle) (z : cval),
+  sin_phase O z false = so_arg O z /\ sin_phase O z true = so_add_halfpi O (so_arg O z).
+Proof. exact sin_phase_reference. Qed.
+(* and that is the same time function: with (cw, sw) = (cos wt, sin wt), (c, s) = (cos phi, sin phi) and
+   (c', s') = (-s, c) = (cos, sin) of phi + pi/2:  Re(Z e^{jwt}) = A cos(wt + phi) = A sin(wt + phi + pi/2) *)
+Theorem C14_agree_time_function : forall (R : fops) (ROK : fops_ok R) (re im A c s cw sw : R),
+  re = fmul R A c -> im = fmul R A s ->
+  let c' := fopp R s in let s' := c in
+  fsub R (fmul R re cw) (fmul R im sw) = fmul R A (fsub R (fmul R cw c) (fmul R sw s)) /\
+  fmul R A (fsub R (fmul R cw c) (fmul R sw s)) = fmul R A (fadd R (fmul R sw c') (fmul R cw s')).
+Proof. exact sinusoid_forms. Qed.
+Print Assumptions C14_agree_time_function.
+
+(* ================= the declarative route (SimpleSimulation/schematic.py) ================= *)
+(* which adapter a description selects: type looked up in `solutions`, parameters filtered by the signature of the
+   selected factory, defaults precision=3, polar=deg=False, w=0 *)
+Theorem C14_declarative_adapter : forall data : ddict,
+  dlook data k_schematic = None ->
+  adapter_of_description data =
+  match select_solution data with
+  | SF_empty => DOk AdEmpty
+  | SF_real => dbind (get_int data k_precision 3) (fun p => DOk (AdReal p))
+  | SF_complex =>
+      dbind (get_int data k_precision 3) (fun p => dbind (get_bool data k_polar false) (fun po =>
+      dbind (get_bool data k_deg false) (fun dg => DOk (AdComplex None p po dg))))
+  | SF_single_frequency_complex =>
+      dbind (get_num data k_w 0) (fun w => dbind (get_int data k_precision 3) (fun p =>
+      dbind (get_bool data k_polar false) (fun po => dbind (get_bool data k_deg false) (fun dg =>
+      DOk (AdComplex (Some w) p po dg)))))
+  end.
+Proof. exact description_adapter. Qed.
+Theorem C14_declarative_types : forall data : ddict,
+  (dlook data k_type = Some (DStr (lbl "dc")) -> select_solution data = SF_real) /\
+  (dlook data k_type = Some (DStr (lbl "real")) -> select_solution data = SF_real) /\
+  (dlook data k_type = Some (DStr (lbl "complex")) -> select_solution data = SF_complex) /\
+  (dlook data k_type = Some (DStr (lbl "single_frequency_time_domain")) -> select_solution data = SF_single_frequency_complex).
+Proof. exact select_types. Qed.
+(* a key that is not a parameter of the selected factory is ignored *)
+Theorem C14_declarative_extra_key : forall (data : ddict) (k : label) (v : dvalue),
+  label_eqb k k_type = false -> lmem k (sol_signature (select_solution data)) = false ->
+  adapter_of_description (data ++ [(k, v)]) = adapter_of_description data.
+Proof. exact description_extra_key_ignored. Qed.
+(* the text written through a description is the text of the direct call, with reverse=False by default *)
+Theorem C14_declarative_is_direct : forall PO SO (data entry : ddict) (q : quantity) (v : reading) (ad : adapter) (rev : bool),
+  adapter_of_description data = DOk ad -> entry_reverse entry = DOk rev ->
+  declarative_annotation PO SO data q entry v = DOk (annotation PO SO ad q rev v).
+Proof. exact declarative_is_direct. Qed.
+(* FINDING: no description reaches the sinusoidal adapter — 'single_frequency_time_domain' is bound to
+   single_frequency_complex_solution, and single_frequency_time_domain_steady_state_solution is not in the table *)
+Theorem C14_declarative_never_sinusoidal : forall (data : ddict) (ad : adapter),
+  adapter_of_description data = DOk ad -> match ad with AdSin _ _ _ _ _ => False | _ => True end.
+Proof. exact description_never_sinusoidal. Qed.
+Print Assumptions C14_declarative_adapter.
+Print Assumptions C14_declarative_never_sinusoidal.
+
+(* ================= non-vacuity and witnesses (vm_compute; expected texts taken from the Python code) ================= *)
+Definition S (l : list Z) : label := map Z.to_N l.
+
+(* print_real(-1*2.5, 'V', 3) = '-2.50V' *)
+Example ex_real_reverse : real_ann QVoltage true (5 # 2) 3 = S [45; 50; 46; 53; 48; 86].
+Proof. vm_compute. reflexivity. Qed.
+Example ex_real_potential : real_ann QPotential true (5 # 2) 3 = S [50; 46; 53; 48; 86].     (* no reverse: '2.50V' *)
+Proof. vm_compute. reflexivity. Qed.
+(* hypotheses of C14_real_accurate hold for x = 2.5, p = 3 *)
+Example ex_real_hyps : ~ ((5 # 2) == 0)%Q /\ 1 <= 3 /\ ~ (2 <= 3 /\ carry_region_Q (5 # 2) 3) /\ exponent (5 # 2) 3 <= 3.
+Proof. split; [discriminate|]. split; [lia|]. split; [|vm_compute; discriminate].
+  intros [_ [_ C]]. vm_compute in C. discriminate C. Qed.
+Example ex_real_accurate : exists r s, parse true tab_umk (unit_of QVoltage) (real_ann QVoltage true (5 # 2) 3) = Some r /\
+    p_inf r = false /\ (p_neg r = true <-> (sgnQ true (5 # 2) < 0)%Q) /\
+    sig_exp (5 # 2) 3 s /\ (Qabs (pvalue r - sgnQ true (5 # 2)) <= Qpow10 s / 2)%Q.
+Proof. destruct ex_real_hyps as [H1 [H2 [H3 H4]]].
+  exact (C14_real_accurate QVoltage true (5 # 2) 3 ltac:(discriminate) H1 H2 H3 H4). Qed.
+(* print_active_power(-0.75, 3) = '750mW↑', print_active_power(1500.0, 3) = '1.50kW↓' *)
+Example ex_power_up : real_ann QPower false (-3 # 4) 3 = S [55; 53; 48; 109; 87; 8593].
+Proof. vm_compute. reflexivity. Qed.
+Example ex_power_down : real_ann QPower true (-1500 # 1) 3 = S [49; 46; 53; 48; 107; 87; 8595].
+Proof. vm_compute. reflexivity. Qed.
+Example ex_power_hyps : ~ ((-3 # 4) == 0)%Q /\ 1 <= 3 /\ ~ (2 <= 3 /\ carry_region_Q (-3 # 4) 3) /\ exponent (-3 # 4) 3 <= 12.
+Proof. split; [discriminate|]. split; [lia|]. split; [|vm_compute; discriminate].
+  intros [_ [C _]]. vm_compute in C. apply C. reflexivity. Qed.
+
+(* print_complex(3-4j, 'A', 3) = '3.00A-j4.00A'; reversed: '-3.00A+j4.00A' *)
+Definition PO0 : polar_oracle := {| po_abs := fun _ => 5 # 1; po_small := fun _ _ => false;
+  po_text := fun deg z => if Qneg (snd z) then S [45; 53; 51; 46; 49; 51] else S [49; 50; 54; 46; 56; 55] |}.
+Example ex_cartesian : complex_ann PO0 QCurrent false (3 # 1, -4 # 1) 3 false false
+  = S [51; 46; 48; 48; 65; 45; 106; 52; 46; 48; 48; 65].
+Proof. vm_compute. reflexivity. Qed.
+Example ex_cartesian_reverse : complex_ann PO0 QCurrent true (3 # 1, -4 # 1) 3 false false
+  = S [45; 51; 46; 48; 48; 65; 43; 106; 52; 46; 48; 48; 65].
+Proof. vm_compute. reflexivity. Qed.
+Example ex_cartesian_parse : option_map cart_value
+    (parse_cartesian tab_umk (unit_of QCurrent) (S [45; 51; 46; 48; 48; 65; 43; 106; 52; 46; 48; 48; 65]))
+  = Some ((-300 # 1) * (1 # 100), (400 # 1) * (1 # 100))%Q.
+Proof. vm_compute. reflexivity. Qed.
+Example ex_part_ok : part_ok (3 # 1) 3 /\ part_ok (-4 # 1) 3.
+Proof. split; (split; [discriminate|]; split; [|vm_compute; split; discriminate]);
+  intros [_ [_ C]]; vm_compute in C; discriminate C. Qed.
+(* print_complex(3-4j, 'V', 3, polar=True, deg=True) = '5.00V∠-53.13°'; reversed '5.00V∠126.87°' (angle texts: oracle) *)
+Example ex_polar : complex_ann PO0 QVoltage false (3 # 1, -4 # 1) 3 true true
+  = S [53; 46; 48; 48; 86; 8736; 45; 53; 51; 46; 49; 51; 176].
+Proof. vm_compute. reflexivity. Qed.
+Example ex_polar_reverse : complex_ann PO0 QVoltage true (3 # 1, -4 # 1) 3 true true
+  = S [53; 46; 48; 48; 86; 8736; 49; 50; 54; 46; 56; 55; 176].
+Proof. vm_compute. reflexivity. Qed.
+
+(* print_sinosoidal(3+4j, 'V', 3, w=100.0) = '5.00V·cos(100/s·t+927e-3)'
+   print_sinosoidal(3+4j, 'V', 3, w=100.0, sin=True, deg=True, hertz=True) = '5.00V·sin(2π·15.9Hz·t+143°)'
+   oracle values: the binary64 results of cmath.phase, + pi/2, math.degrees, w/2/pi for this input *)
+Definition SO0 : sin_oracle := {|
+  so_abs := fun _ => 5 # 1;
+  so_arg := fun _ => 8352332796509007 # 9007199254740992;
+  so_add_halfpi := fun _ => 175787564848171 # 70368744177664;
+  so_degrees := fun _ => 5035942778341233 # 35184372088832;
+  so_hz := fun _ => 2239906695008851 # 140737488355328 |}.
+Example ex_sinusoid_cos : sin_ann SO0 QVoltage false (3 # 1, 4 # 1) 3 (100 # 1) false false false
+  = S [53; 46; 48; 48; 86; 183; 99; 111; 115; 40; 49; 48; 48; 47; 115; 183; 116; 43; 57; 50; 55; 101; 45; 51; 41].
+Proof. vm_compute. reflexivity. Qed.
+Example ex_sinusoid_sin : sin_ann SO0 QVoltage false (3 # 1, 4 # 1) 3 (100 # 1) true true true
+  = S [53; 46; 48; 48; 86; 183; 115; 105; 110; 40; 50; 960; 183; 49; 53; 46; 57; 72; 122; 183; 116; 43; 49; 52; 51; 176; 41].
+Proof. vm_compute. reflexivity. Qed.
+Example ex_sinusoid_dc : sin_ann SO0 QVoltage false (3 # 1, 4 # 1) 3 0 false false false = S [53; 46; 48; 48; 86].
+Proof. vm_compute. reflexivity. Qed.
+
+(* peak / rms: sqrt2 * sqrt2 = 2 has no solution in the executable field Qc (it has in the reals); the general form
+   C14_agree_peak_rms_general is instantiated with sqrt2 := 7/5 over Qc *)
+Example ex_peak_rms :
+  let sp := {| cs_sol := {| s_net := {| branches := []; zero := [] |}; s_x := [] |}; cs_peak := true |} : csol Qcops in
+  let sr := {| cs_sol := cs_sol sp; cs_peak := false |} : csol Qcops in
+  cs_peak sp = true /\ cs_peak sr = false /\ qc 7 5 <> f0 Qcops /\
+  unpeak Qcops (qc 7 5) sp (cq 7 1 (-14) 1) = cq 7 1 (-14) 1 /\ unpeak Qcops (qc 7 5) sr (cq 7 1 (-14) 1) = cq 5 1 (-10) 1.
+Proof. cbv zeta. repeat split; try discriminate; vm_compute; reflexivity. Qed.
+
+(* the declarative route: {'type': 'dc', 'precision': 4, 'voltages': [...]}, unknown keys ignored *)
+Example ex_description_dc :
+  adapter_of_description [(k_type, DStr (lbl "dc")); (k_precision, DInt 4); (lbl "voltages", DOther)] = DOk (AdReal 4).
+Proof. vm_compute. reflexivity. Qed.
+Example ex_description_sftd :
+  adapter_of_description [(k_type, DStr (lbl "single_frequency_time_domain")); (k_w, DNum (100 # 1)); (k_polar, DBool true);
+                          (lbl "sin", DBool true); (lbl "hertz", DBool true)]
+  = DOk (AdComplex (Some (100 # 1)) 3 true false).
+Proof. vm_compute. reflexivity. Qed.
+Example ex_description_unknown : adapter_of_description [(k_type, DStr (lbl "transient"))] = DOk AdEmpty.
+Proof. vm_compute. reflexivity. Qed.
+Example ex_description_schematic_key :
+  adapter_of_description [(k_type, DStr (lbl "dc")); (k_schematic, DOther)] = DErr DE_TypeError.
+Proof. vm_compute. reflexivity. Qed.
+Example ex_declarative_text :
+  declarative_annotation PO0 SO0 [(k_type, DStr (lbl "dc")); (k_precision, DInt 3)] QVoltage
+    [(k_name, DStr (lbl "R2")); (k_reverse, DBool true)] {| rd_real := 5 # 2; rd_cplx := (5 # 2, 0%Q) |}
+  = DOk (S [45; 50; 46; 53; 48; 86]).
+Proof. vm_compute. reflexivity. Qed.
